@@ -1406,3 +1406,51 @@ Print Assumptions entry_contract_roots_float.
 Example entry_contract_roots_float_nonvacuous :
   g_poly_roots_degree 3 = false /\ 1 <= length [@mkC AF 2%float 0%float; @mkC AF 0%float 0%float; @mkC AF 1%float 0%float].
 Proof. vm_compute. split; [reflexivity|]. repeat constructor. Qed.
+
+(* ---- the model functions the entry contracts speak about ARE the functions in the source of this run: for 46 of the 62 entries the model
+   function is equal, for all arguments, to the function regenerated from /repo/src on this run by the Rust-subset -> Gallina translator
+   (gen/Src*.v, Proofs/SrcEq*.v; the same statements are obligations of C01-C07, C15).  Deleting, weakening or moving a guard, or changing a
+   loop bound / index of one of these functions in the source breaks the obligation below for its file, besides guard_<entry>.
+   Not regenerated (tied by differential execution only): Banded/Tridiagonal/Polynomial IndexMut and Polynomial Index, Sparse::from_triplets
+   (its helper col_start_from_index is), dot_f64, the four iterative solvers, the mesh accessors, poly_solve. ---- *)
+From OV Require Proofs.SrcEqVector.
+Theorem model_is_source_C20_Vector : forall A : Arith, @SrcEqVector.model_is_source_Vector A.
+Proof. intros A. exact SrcEqVector.model_is_source_Vector_lemma. Qed.
+Check model_is_source_C20_Vector : forall A : Arith, @SrcEqVector.model_is_source_Vector A.
+Print Assumptions model_is_source_C20_Vector.
+
+From OV Require Proofs.SrcEqMatrix.
+Theorem model_is_source_C20_Matrix : forall A : Arith, @SrcEqMatrix.model_is_source_Matrix A.
+Proof. intros A. exact SrcEqMatrix.model_is_source_Matrix_lemma. Qed.
+Check model_is_source_C20_Matrix : forall A : Arith, @SrcEqMatrix.model_is_source_Matrix A.
+Print Assumptions model_is_source_C20_Matrix.
+
+From OV Require Proofs.SrcEqMatArith.
+Theorem model_is_source_C20_MatArith : forall A : Arith, @SrcEqMatArith.model_is_source_MatArith A.
+Proof. intros A. exact SrcEqMatArith.model_is_source_MatArith_lemma. Qed.
+Check model_is_source_C20_MatArith : forall A : Arith, @SrcEqMatArith.model_is_source_MatArith A.
+Print Assumptions model_is_source_C20_MatArith.
+
+From OV Require Proofs.SrcEqSolve.
+Theorem model_is_source_C20_Solve : forall A : Arith, @SrcEqSolve.model_is_source_Solve A.
+Proof. intros A. exact SrcEqSolve.model_is_source_Solve_lemma. Qed.
+Check model_is_source_C20_Solve : forall A : Arith, @SrcEqSolve.model_is_source_Solve A.
+Print Assumptions model_is_source_C20_Solve.
+
+From OV Require Proofs.SrcEqBanded.
+Theorem model_is_source_C20_Banded : forall A : Arith, @SrcEqBanded.model_is_source_Banded A.
+Proof. intros A. exact SrcEqBanded.model_is_source_Banded_lemma. Qed.
+Check model_is_source_C20_Banded : forall A : Arith, @SrcEqBanded.model_is_source_Banded A.
+Print Assumptions model_is_source_C20_Banded.
+
+From OV Require Proofs.SrcEqTridiag.
+Theorem model_is_source_C20_Tridiag : forall A : Arith, @SrcEqTridiag.model_is_source_Tridiag A.
+Proof. intros A. exact SrcEqTridiag.model_is_source_Tridiag_lemma. Qed.
+Check model_is_source_C20_Tridiag : forall A : Arith, @SrcEqTridiag.model_is_source_Tridiag A.
+Print Assumptions model_is_source_C20_Tridiag.
+
+From OV Require Proofs.SrcEqSparse.
+Theorem model_is_source_C20_Sparse : forall A : Arith, @SrcEqSparse.model_is_source_Sparse A.
+Proof. intros A. exact SrcEqSparse.model_is_source_Sparse_lemma. Qed.
+Check model_is_source_C20_Sparse : forall A : Arith, @SrcEqSparse.model_is_source_Sparse A.
+Print Assumptions model_is_source_C20_Sparse.
